@@ -25,7 +25,10 @@ META = {
     'bounds': {'quick': 'grammar depth<=2(+3 reduced), 1 deviation', 'thorough': 'thorough grammar, 1 deviation on 5 members'},
 }
 
-plan = e1.plan
+def plan(tier, seed):
+    return e1.plan(tier, seed) + [{'docs_stream': True}]
+
+
 SEQS = ('list', 'tuplevar', 'set', 'frozenset', 'deque')
 MAPS = ('dict', 'defaultdict', 'ordereddict', 'counter')
 
@@ -379,8 +382,17 @@ def expressions(tier):
 
 
 def run_shard(shard, tier):
+    if shard.get('docs_stream'):
+        from mc import docs_stream
+        res = core.new_result()
+        docs_stream.run(core.import_pane(), res, want_text=False)
+        return res
     return e1.run_shard(shard, tier, judge, expr_fn=expressions)
 
 
 def replay(cell):
+    if cell.get('docs_stream'):
+        from mc import docs_stream
+        out = docs_stream.replay(core.import_pane(), want_text=False)
+        return [v for v in out if v['cell'].get('docs') == cell.get('docs')] or out
     return e1.replay(cell, judge)
